@@ -22,10 +22,10 @@ import (
 	"sync"
 	"time"
 
-	corelog "tunnox-core/internal/core/log"
-	"tunnox-core/internal/core/types"
 	"tunnox-core/internal/cloud/models"
 	"tunnox-core/internal/cloud/stats"
+	corelog "tunnox-core/internal/core/log"
+	"tunnox-core/internal/core/types"
 	"tunnox-core/internal/packet"
 	"tunnox-core/internal/protocol/adapter"
 	"tunnox-core/internal/protocol/session"
@@ -200,7 +200,9 @@ func failNow(mode, n int) bool { return mode == 2 || (mode == 1 && n == 1) }
 func (d *cloudDouble) GetPortMapping(mappingID string) (*models.PortMapping, error) {
 	return nil, errors.New("cloud double: no mappings")
 }
-func (d *cloudDouble) UpdatePortMappingStats(mappingID string, ts *stats.TrafficStats) error { return nil }
+func (d *cloudDouble) UpdatePortMappingStats(mappingID string, ts *stats.TrafficStats) error {
+	return nil
+}
 func (d *cloudDouble) GetClientPortMappings(clientID int64) ([]*models.PortMapping, error) {
 	return nil, nil
 }
@@ -244,6 +246,7 @@ func (g *gconn) Write(p []byte) (int, error) { return g.t.Write(p) }
 func (g *gconn) Close() error                { return g.t.Close() }
 func (g *gconn) GetConnectionID() string     { return g.t.id }
 func (g *gconn) IsPersistent() bool          { return g.persistent }
+
 type caseIn struct {
 	Mode     string  `json:"mode"` // "" = one sequence | "ex" = exhaustive enumeration
 	Cfg      cfgIn   `json:"cfg"`
@@ -328,10 +331,10 @@ type world struct {
 	objTr         map[*session.ControlConnection]*transport // control connections created with their own (fresh) stream
 	pk            bool                                      // transports are PackageStreamers (interleaving cases)
 	inj           *injSpec
-	cloud   *cloudDouble
-	ad      *adapter.VerifAdapter
-	gc      map[int]*gconn // adapter-driven connections whose read loop is running
-	ctx     context.Context
+	cloud         *cloudDouble
+	ad            *adapter.VerifAdapter
+	gc            map[int]*gconn // adapter-driven connections whose read loop is running
+	ctx           context.Context
 	mayUnregister bool // one of two concurrently started operations removes a record without closing its stream
 }
 
@@ -818,7 +821,7 @@ func (w *world) check(step int, o []int, errFlag, n int, fired bool, pre, post *
 	if code != opUnregister && code != opToTunnel && !w.mayUnregister {
 		for cn, cc := range pre.reg {
 			// (a record replaced by a re-registration that wraps the same stream hands its open transport over to the replacement)
-			if post.reg[cn] != cc && !w.closedOf(cc) && !(code == opReReg && cn == c && post.reg[cn] != nil) {
+			if post.reg[cn] != cc && !w.closedOf(cc) && !((code == opReReg || code == opRegClaim) && cn == c && post.reg[cn] != nil) {
 				add("evicted-not-closed", false, "%s left the registry during op %v but its transport is still open", cc.ConnID, o)
 			}
 		}
